@@ -24,19 +24,36 @@ theorem valid_of_configure (h : configure k o = .ok ()) : Valid k o := by
     · cases hs : o.sort <;> cases hk2 : k.sortable <;> simp [hu, hk, hs, hk2] at h
     · rfl
 
-/-- the value a token stands for -/
-def valOf (t : List Char) : Option α := E.conv (applyFmt o.fmt t)
-
-/-- the token passes every check and converts -/
-def Accepts (t : List Char) : Prop := runChecks o.checks t = none ∧ (valOf E o t).isSome = true
-
 /-- all tokens of a sequence of uses, in order -/
 def allTokens (sep : Char) (uses : List (List Char)) : List (List Char) := (uses.map (tokens sep)).flatten
 
-def vals (ts : List (List Char)) : List α := ts.filterMap (valOf E o)
-
 /-- the values that are stored out of `done` -/
 def keepOf (base done : List α) : List α := if o.unique || k.isSet then dedupInto base done else done
+
+/-- the number of elements in the destination (= the position the next stored value gets, `mDestVar.size()`)
+    when it started as `base` and the values `done` have been given since -/
+def posOf (base done : List α) : Nat := base.length + (keepOf k o base done).length
+
+/-- the value a token stands for when the destination holds `p` elements: general format, then (vector only)
+    the formatters of position `p`, then `lexical_cast` -/
+def valOf (p : Nat) (t : List Char) : Option α := E.conv (fmtSeq k o p t)
+
+/-- the token passes every check (on the text as given) and converts after formatting for position `p` -/
+def Accepts (p : Nat) (t : List Char) : Prop := runChecks o.checks t = none ∧ (valOf E k o p t).isSome = true
+
+/-- the values of the tokens `ts`, the destination having started as `base` and received `done` before them:
+    every token is formatted for the position it would be stored at -/
+def vals (base done : List α) : List (List Char) → List α
+  | [] => []
+  | t :: ts => match valOf E k o (posOf k o base done) t with
+    | none => vals base done ts
+    | some v => v :: vals base (done ++ [v]) ts
+
+/-- every token is acceptable at the position at which it arrives -/
+def AccAll (base done : List α) : List (List Char) → Prop
+  | [] => True
+  | t :: ts => runChecks o.checks t = none ∧
+      ∃ v, valOf E k o (posOf k o base done) t = some v ∧ AccAll base (done ++ [v]) ts
 
 /-- one accepted, not refused value -/
 def stepV (c : List α) (v : α) : List α :=
@@ -159,15 +176,51 @@ theorem stepV_inv (hl : LawfulLe E.le) {base c done : List α} (hi : Inv E k o b
     · intro h3
       exact addValue_sorted hl v h3 (hi.sorted h3)
 
+theorem vals_cons_some {base done : List α} {t : List Char} {v : α} (ts : List (List Char))
+    (h : valOf E k o (posOf k o base done) t = some v) :
+    vals E k o base done (t :: ts) = v :: vals E k o base (done ++ [v]) ts := by
+  rw [vals, h]
+
+theorem vals_append (base : List α) : ∀ (a b : List (List Char)) (done : List α),
+    vals E k o base done (a ++ b) = vals E k o base done a ++ vals E k o base (done ++ vals E k o base done a) b
+  | [], b, done => by simp [vals]
+  | t :: a, b, done => by
+    rw [List.cons_append, vals, vals]
+    cases h : valOf E k o (posOf k o base done) t with
+    | none => exact vals_append base a b done
+    | some v =>
+      simp only
+      rw [vals_append base a b (done ++ [v])]
+      simp [List.append_assoc]
+
+theorem accAll_append (base : List α) : ∀ (a b : List (List Char)) (done : List α),
+    AccAll E k o base done (a ++ b) ↔
+      AccAll E k o base done a ∧ AccAll E k o base (done ++ vals E k o base done a) b
+  | [], b, done => by simp [AccAll, vals]
+  | t :: a, b, done => by
+    rw [List.cons_append, AccAll, AccAll]
+    constructor
+    · rintro ⟨hc, v, hv, hr⟩
+      have := (accAll_append base a b (done ++ [v])).mp hr
+      rw [vals_cons_some a hv]
+      exact ⟨⟨hc, v, hv, this.1⟩, by simpa [List.append_assoc] using this.2⟩
+    · rintro ⟨⟨hc, v, hv, hr⟩, h2⟩
+      rw [vals_cons_some a hv] at h2
+      exact ⟨hc, v, hv, (accAll_append base a b (done ++ [v])).mpr ⟨hr, by simpa [List.append_assoc] using h2⟩⟩
+
+/-- the invariant fixes the number of elements in the destination -/
+theorem length_of_inv {base c done : List α} (hi : Inv E k o base c done) : c.length = posOf k o base done := by
+  rw [hi.perm.length_eq, List.length_append]
+  rfl
+
 theorem elems_inv (hl : LawfulLe E.le) (hv : Valid k o) (base : List α) :
-    ∀ (ts : List (List Char)) (c done : List α), Inv E k o base c done → (∀ t ∈ ts, Accepts E o t) →
-      DupFree o base (done ++ vals E o ts) →
-      ∃ c', elems E k o c ts = (c', none) ∧ Inv E k o base c' (done ++ vals E o ts)
+    ∀ (ts : List (List Char)) (c done : List α), Inv E k o base c done → AccAll E k o base done ts →
+      DupFree o base (done ++ vals E k o base done ts) →
+      ∃ c', elems E k o c ts = (c', none) ∧ Inv E k o base c' (done ++ vals E k o base done ts)
   | [], c, done, hi, _, _ => ⟨c, rfl, by simpa [vals] using hi⟩
   | t :: ts, c, done, hi, hacc, hdf => by
-    obtain ⟨hchk, hconv⟩ := hacc t List.mem_cons_self
-    obtain ⟨v, hvt⟩ := Option.isSome_iff_exists.mp hconv
-    have hvals : vals E o (t :: ts) = v :: vals E o ts := by simp [vals, hvt]
+    obtain ⟨hchk, v, hvt, hrest⟩ := hacc
+    have hvals := vals_cons_some ts hvt
     have hnd : ¬ (o.unique = true ∧ o.dupErr = true ∧ v ∈ c) := by
       rintro ⟨hu, he, hm⟩
       have hd := hdf hu he
@@ -181,12 +234,12 @@ theorem elems_inv (hl : LawfulLe E.le) (hv : Valid k o) (base : List α) :
       rw [hchk]
       simp only
       unfold valOf at hvt
-      rw [hvt]
+      rw [length_of_inv hi, hvt]
       exact storeValue_ok hv c v hnd
     have hi' := stepV_inv hl hi v
-    have hassoc : done ++ vals E o (t :: ts) = (done ++ [v]) ++ vals E o ts := by rw [hvals]; simp
-    obtain ⟨c', hc', hinv'⟩ := elems_inv hl hv base ts (stepV E k o c v) (done ++ [v]) hi'
-      (fun t' ht' => hacc t' (List.mem_cons_of_mem _ ht')) (hassoc ▸ hdf)
+    have hassoc : done ++ vals E k o base done (t :: ts) = (done ++ [v]) ++ vals E k o base (done ++ [v]) ts := by
+      rw [hvals]; simp
+    obtain ⟨c', hc', hinv'⟩ := elems_inv hl hv base ts (stepV E k o c v) (done ++ [v]) hi' hrest (hassoc ▸ hdf)
     refine ⟨c', ?_, hassoc ▸ hinv'⟩
     rw [elems, hstep]
     exact hc'
@@ -196,10 +249,10 @@ def startContent (s : SeqState α) : List α := if s.clearPending then [] else s
 
 theorem assignP_inv (hl : LawfulLe E.le) (hv : Valid k o) (base : List α) (s : SeqState α) (value : List Char)
     (done : List α) (hi : Inv E k o base (startContent s) done)
-    (hacc : ∀ t ∈ tokens o.sep value, Accepts E o t)
-    (hdf : DupFree o base (done ++ vals E o (tokens o.sep value))) :
+    (hacc : AccAll E k o base done (tokens o.sep value))
+    (hdf : DupFree o base (done ++ vals E k o base done (tokens o.sep value))) :
     ∃ c', assignP E k o s value = (⟨c', false⟩, none) ∧
-      Inv E k o base c' (done ++ vals E o (tokens o.sep value)) ∧ (o.sort = true → Sorted E.le c') := by
+      Inv E k o base c' (done ++ vals E k o base done (tokens o.sep value)) ∧ (o.sort = true → Sorted E.le c') := by
   obtain ⟨c1, hc1, hinv⟩ := elems_inv hl hv base _ _ done hi hacc hdf
   unfold startContent at hc1
   cases hs : o.sort
@@ -214,22 +267,23 @@ theorem assignP_inv (hl : LawfulLe E.le) (hv : Valid k o) (base : List α) (s : 
 
 theorem runP_inv (hl : LawfulLe E.le) (hv : Valid k o) (base : List α) :
     ∀ (uses : List (List Char)) (s : SeqState α) (done : List α), Inv E k o base (startContent s) done →
-      (∀ t ∈ allTokens o.sep uses, Accepts E o t) →
-      DupFree o base (done ++ vals E o (allTokens o.sep uses)) → uses ≠ [] →
+      AccAll E k o base done (allTokens o.sep uses) →
+      DupFree o base (done ++ vals E k o base done (allTokens o.sep uses)) → uses ≠ [] →
       ∃ c', runP E k o s uses = (⟨c', false⟩, none) ∧
-        Inv E k o base c' (done ++ vals E o (allTokens o.sep uses)) ∧ (o.sort = true → Sorted E.le c')
+        Inv E k o base c' (done ++ vals E k o base done (allTokens o.sep uses)) ∧ (o.sort = true → Sorted E.le c')
   | [], _, _, _, _, _, hne => absurd rfl hne
   | u :: us, s, done, hi, hacc, hdf, _ => by
     have htok : allTokens o.sep (u :: us) = tokens o.sep u ++ allTokens o.sep us := by simp [allTokens]
-    have hvals : vals E o (allTokens o.sep (u :: us)) = vals E o (tokens o.sep u) ++ vals E o (allTokens o.sep us) := by
-      rw [htok]; simp [vals, List.filterMap_append]
-    have hdf1 : DupFree o base (done ++ vals E o (tokens o.sep u)) := by
+    have hvals : vals E k o base done (allTokens o.sep (u :: us)) = vals E k o base done (tokens o.sep u) ++
+        vals E k o base (done ++ vals E k o base done (tokens o.sep u)) (allTokens o.sep us) := by
+      rw [htok, vals_append]
+    rw [htok, accAll_append] at hacc
+    have hdf1 : DupFree o base (done ++ vals E k o base done (tokens o.sep u)) := by
       intro hu he
       have hd := hdf hu he
       rw [hvals, ← List.append_assoc] at hd
       exact ⟨(List.nodup_append.mp hd.1).1, fun v hm => hd.2 v (List.mem_append_left _ hm)⟩
-    obtain ⟨c1, hc1, hinv1, hsort1⟩ := assignP_inv hl hv base s u done hi
-      (fun t ht => hacc t (by rw [htok]; exact List.mem_append_left _ ht)) hdf1
+    obtain ⟨c1, hc1, hinv1, hsort1⟩ := assignP_inv hl hv base s u done hi hacc.1 hdf1
     rw [runP, hc1]
     simp only
     cases us with
@@ -240,8 +294,7 @@ theorem runP_inv (hl : LawfulLe E.le) (hv : Valid k o) (base : List α) :
     | cons u2 us2 =>
       have hstart : startContent (⟨c1, false⟩ : SeqState α) = c1 := by simp [startContent]
       obtain ⟨c2, hc2, hinv2, hsort2⟩ := runP_inv hl hv base (u2 :: us2) ⟨c1, false⟩
-        (done ++ vals E o (tokens o.sep u)) (hstart ▸ hinv1)
-        (fun t ht => hacc t (by rw [htok]; exact List.mem_append_right _ ht))
+        (done ++ vals E k o base done (tokens o.sep u)) (hstart ▸ hinv1) hacc.2
         (by rw [List.append_assoc, ← hvals]; exact hdf) (by simp)
       refine ⟨c2, hc2, ?_, hsort2⟩
       rw [hvals, ← List.append_assoc]
@@ -271,10 +324,10 @@ theorem finalSpec_of_inv (hl : LawfulLe E.le) (init c vs : List α)
 /-- the main refinement: any non-empty sequence of uses whose tokens are all accepted ends in `finalSpec` -/
 theorem runP_finalSpec (hl : LawfulLe E.le) (hv : Valid k o) (init : List α) (hwf : WF (E := E) (k := k) init)
     (uses : List (List Char)) (hne : uses ≠ [])
-    (hacc : ∀ t ∈ allTokens o.sep uses, Accepts E o t)
-    (hdf : DupFree o (if o.clear then [] else init) (vals E o (allTokens o.sep uses))) :
+    (hacc : AccAll E k o (if o.clear then [] else init) [] (allTokens o.sep uses))
+    (hdf : DupFree o (if o.clear then [] else init) (vals E k o (if o.clear then [] else init) [] (allTokens o.sep uses))) :
     runP E k o (SeqState.start init o) uses
-      = (⟨finalSpec E k o init (vals E o (allTokens o.sep uses)), false⟩, none) := by
+      = (⟨finalSpec E k o init (vals E k o (if o.clear then [] else init) [] (allTokens o.sep uses)), false⟩, none) := by
   have hstart : startContent (SeqState.start init o) = if o.clear then [] else init := rfl
   have hi0 : Inv E k o (if o.clear then [] else init) (startContent (SeqState.start init o)) [] := by
     rw [hstart]
